@@ -510,6 +510,10 @@ impl PG<'_> {
 
     fn expr(&mut self, depth: u32) -> Value {
         if depth == 0 || self.r.chance(1, 4) {
+            if self.r.chance(1, 14) {
+                // a path of 6..25 steps with an environment built for it (leading-zero surcharge at 7/15/23 steps)
+                return self.deep_path();
+            }
             return if self.r.chance(2, 3) { q(self.value()) } else { self.path() };
         }
         let c = self.r.below(100);
@@ -592,6 +596,24 @@ impl PG<'_> {
             t = json!({"f": items[0].clone(), "r": atom_json(&[5])});
         }
         t
+    }
+
+    fn deep_path(&mut self) -> Value {
+        let bits = *self.r.pick(&[6u32, 7, 8, 14, 15, 16, 22, 23, 24, 25]);
+        let v: u32 = (1 << bits) | (self.r.next() as u32 & ((1 << bits) - 1));
+        let b = v.to_be_bytes();
+        let skip = b.iter().take_while(|x| **x == 0).count();
+        let mut p = b[skip..].to_vec();
+        if p[0] & 0x80 != 0 || self.r.chance(1, 8) {
+            p.insert(0, 0);
+        }
+        let steps = if self.r.chance(1, 10) { bits - 1 } else { bits };
+        let mut env = atom_json(&[0x2a, 0x2b]);
+        for k in (0..steps).rev() {
+            let other = atom_json(&[(k % 200) as u8 + 1]);
+            env = if (v >> k) & 1 == 1 { json!({"f": other, "r": env}) } else { json!({"f": env, "r": other}) };
+        }
+        list_json(&[atom_json(&[2]), q(atom_json(&p)), q(env)])
     }
 
     /// programs aimed at the fast paths (C05): all-small add/sub at the u64/i64 edges, (sha256 1 n),
@@ -1400,7 +1422,25 @@ fn main() {
                 let f = base_flags & !0x0020;
                 let budget = if r.chance(1, 4) { 1 + r.below(20000) } else { 0 };
                 run_one(&mut out, case, &prog, &env, &Cfg::new("base", "chia", f, budget), &mut line);
-                run_one(&mut out, case, &prog, &env, &Cfg::new("gc", "chia", f | 0x0020, budget).rel("eq_full", "base"), &mut line);
+                let gc = run_one(&mut out, case, &prog, &env, &Cfg::new("gc", "chia", f | 0x0020, budget).rel("eq_full", "base"), &mut line);
+                // the same pair on allocators close to a cap: reclamation must not change which runs fit
+                if gc.get("skip").is_none() && r.chance(1, 2) {
+                    let heap_used = gc["heap"].as_u64().unwrap_or(1) as usize;
+                    let atoms_used = gc["atoms"].as_u64().unwrap_or(3) as usize;
+                    let mut b2 = Cfg::new("base_lim", "chia", f, budget);
+                    let mut g2 = Cfg::new("gc_lim", "chia", f | 0x0020, budget).rel("eq_full", "base_lim");
+                    if r.chance(2, 3) {
+                        let lim = heap_used + r.below(50) as usize;
+                        b2.heap_limit = Some(lim);
+                        g2.heap_limit = Some(lim);
+                    } else {
+                        let ghosts = 62_500_000usize.saturating_sub(atoms_used + r.below(3) as usize);
+                        b2.ghost_atoms = ghosts;
+                        g2.ghost_atoms = ghosts;
+                    }
+                    run_one(&mut out, case, &prog, &env, &b2, &mut line);
+                    run_one(&mut out, case, &prog, &env, &g2, &mut line);
+                }
             }
             // C07: restriction flags
             "C07" => {
